@@ -10,32 +10,11 @@ void run_pool_node(const vf::args&);
 void run_pool_array(const vf::args&);
 void run_pool_small(const vf::args&);
 
-namespace
-{
-    bool rule(const std::set<std::string>& f)
-    {
-        auto& p = cx().prop;
-        auto  has = [&](const char* x) { return f.count(x) != 0; };
-        if (p == "C04")
-            return has("release") && (has("uneven-array") || has("cycle") || has("drain"));
-        if (p == "C05")
-            return has("grow") || has("move");
-        if (p == "C12")
-            return has("move");
-        if (p == "C15")
-            return has("release") && (has("leak") || has("move"));
-        if (p == "C18")
-            return has("grow") && has("release");
-        if (p == "C03")
-            return has("exhausted") || has("grow");
-        return has("release") && has("multi-live");
-    }
-} // namespace
 
 int main(int argc, char** argv)
 {
     auto a               = parse_args(argc, argv, "h_pool");
-    cx().nontrivial_rule = rule;
+    cx().nontrivial_rule = history_rule;
     install_recording_handlers();
     run_pool_node(a);
     run_pool_array(a);
